@@ -1291,6 +1291,10 @@ class Frame(ContainerOperand):
         Returns:
             :obj:`static_frame.Frame`
         '''
+        if array.flags.writeable:
+            # columns are extracted as views: never retain memory the caller can write to
+            array = array.copy()
+
         # from a structured array, we assume we want to get the columns labels
         data, index_arrays, columns_labels = cls._structured_array_to_d_ia_cl(
                 array=array,
